@@ -2234,10 +2234,69 @@ def _reuse_dead_names(fn):
     return changed
 
 
+def _merge_copy_tails(fn):
+    """if c: A; p = v  else: B; p = v   ->   if c: A  else: B;  p = v      (the same plain copy ends both arms)"""
+    changed = False
+    for lst in list(_stmt_lists(fn)):
+        i = 0
+        while i < len(lst):
+            s = lst[i]
+            if isinstance(s, ast.If) and s.body and s.orelse:
+                a, b = s.body[-1], s.orelse[-1]
+                if isinstance(a, ast.Assign) and len(a.targets) == 1 and isinstance(a.targets[0], ast.Name) and isinstance(a.value, ast.Name) and ast.dump(a) == ast.dump(b):
+                    s.body = s.body[:-1] or [ast.copy_location(ast.Pass(), a)]
+                    s.orelse = s.orelse[:-1]
+                    lst.insert(i + 1, a)
+                    changed = True
+            i += 1
+    return changed
+
+
+def _rename_copy_regions(fn):
+    """v = p; <statements that never mention p>; p = v   (one statement list; v mentioned nowhere else in the function, neither name
+    captured by a nested scope):  the region works on p under another name - rename v to p there and drop both copies"""
+    changed = False
+    for lst in list(_stmt_lists(fn)):
+        for i, s in enumerate(lst):
+            if not (isinstance(s, ast.Assign) and len(s.targets) == 1 and isinstance(s.targets[0], ast.Name) and isinstance(s.value, ast.Name) and s.value.id != s.targets[0].id):
+                continue
+            v, p_ = s.targets[0].id, s.value.id
+            back = [j for j in range(i + 1, len(lst)) if isinstance(lst[j], ast.Assign) and len(lst[j].targets) == 1 and isinstance(lst[j].targets[0], ast.Name) and lst[j].targets[0].id == p_
+                    and isinstance(lst[j].value, ast.Name) and lst[j].value.id == v]
+            if not back:
+                continue
+            j = back[0]
+            region = lst[i + 1:j]
+            inside = [x for r in region for x in ast.walk(r)]
+            if any(isinstance(x, ast.Name) and x.id == p_ for x in inside):
+                continue
+            n_in = sum(1 for x in inside if isinstance(x, ast.Name) and x.id == v)
+            n_all = sum(1 for x in ast.walk(fn) if isinstance(x, ast.Name) and x.id == v)
+            if n_all != n_in + 2:
+                continue
+            scopes = [x for x in ast.walk(fn) if isinstance(x, (ast.FunctionDef, ast.AsyncFunctionDef, ast.Lambda, ast.ClassDef, ast.ListComp, ast.SetComp, ast.DictComp, ast.GeneratorExp)) and x is not fn]
+            if any(isinstance(y, ast.Name) and y.id in (v, p_) for sc in scopes for y in ast.walk(sc)) or any(isinstance(x, ast.arg) and x.arg == v for x in ast.walk(fn)):
+                continue
+            if any(isinstance(x, (ast.Global, ast.Nonlocal)) and (v in x.names or p_ in x.names) for x in ast.walk(fn)) or any(isinstance(x, ast.ExceptHandler) and x.name in (v, p_) for x in inside):
+                continue
+            for x in inside:
+                if isinstance(x, ast.Name) and x.id == v:
+                    x.id = p_
+            del lst[j]
+            del lst[i]
+            return True or changed
+    return changed
+
+
 def explain_vars(fn):
     """substitute `v = <pure expr>` (v assigned once, in a straight statement list) into the uses that follow in the same list,
     when nothing between the definition and a use can change what the expression reads"""
     _reuse_dead_names(fn)
+    if _merge_copy_tails(fn):
+        pass
+    for _ in range(3):
+        if not _rename_copy_regions(fn):
+            break
     # a, b = (x, y)  ->  a = x; b = y   (x, y do not read a or b)
     paired = set()  # the two arms of `if c: a, b = X else: a, b = Y` stay whole: together they are one conditional assignment
     for n_ in _walk_same_function(fn):
